@@ -134,6 +134,6 @@ package itemsfetcher
 //@   loop 6 modifies f.announces.lru.items[*], f.announces.lru.weight, lel[f.announces.lru.evictList], llen[f.announces.lru.evictList], lidx[*], lown[*], nEvict, gEvictKey, gEvictVal, f.fetching[*]
 //@   loop 6 invariant finv(f) && 0 <= _k && _k <= len(_range)
 //@   loop 6 invariant [uninteresting] forall(j, 0, _k, !notArrivedMap[_range[j]] ==> !lhas(f.announces.lru, _range[j]))
-//@   at call itemsfetcher.Fetcher).rescheduleFetch[1] requires [cleaned] forall(j, 0, len(all), !notArrivedMap[all[j]] ==> !lhas(f.announces.lru, all[j]))
+//@   at call itemsfetcher.Fetcher).rescheduleFetch[*] requires [cleaned] forall(j, 0, len(all), !notArrivedMap[all[j]] ==> !lhas(f.announces.lru, all[j]))
 //@   at call workers.Workers).Enqueue[1] requires [pair] fetchItems == requestFns[peer] && hashes == request[peer]
 //@   loop 7 invariant finv(f)
